@@ -230,7 +230,7 @@ def run_one(scratch, h, extra=(), timeout=None):
         open(os.path.join(CACHE, "kani-logs", h.full.replace("::", ".") + ".log"), "w").write(out)
     except Exception:
         pass
-    res = {"harness": h.full, "wall_s": wall, "rc": rc, "status": "undecided", "failed_checks": [], "covers": None, "out": out[-12000:], "detail": ""}
+    res = {"harness": h.full, "wall_s": wall, "rc": rc, "status": "undecided", "failed_checks": [], "covers": None, "out": out[-12000:], "out_full": out, "detail": ""}
     m = re.search(r'Verification Time: ([0-9.]+)s', out)
     res["solver_s"] = float(m.group(1)) if m else wall
     stubs = re.findall(r'- Stub: (.*)', out)
@@ -270,16 +270,25 @@ def run_one(scratch, h, extra=(), timeout=None):
     return res
 
 
-def concrete_values(scratch, h, timeout=None):
-    """Re-run a failing harness with concrete playback; returns list of byte lists (one per kani::any(), in order)."""
-    r = run_one(scratch, h, extra=["-Z", "concrete-playback", "--concrete-playback=print"], timeout=timeout)
+def playback_values(out):
+    """values of the kani::any() calls (one byte list per primitive, in call order) of the first failed check"""
     vals = []
-    m = re.search(r'let concrete_vals: Vec<Vec<u8>> = vec!\[(.*?)\];', r["out"], re.S)
+    # one unit test is printed per failed check AND per satisfied cover: take the first that is not a cover witness
+    blocks = out.split("Concrete playback unit test for")[1:]
+    pick = None
+    for b in blocks:
+        if "Check for `cover`" in b:
+            continue
+        pick = b
+        break
+    if pick is None:
+        return None
+    m = re.search(r'let concrete_vals: Vec<Vec<u8>> = vec!\[(.*?)\];', pick, re.S)
     if not m:
-        return None, r["out"]
+        return None
     for vm in re.finditer(r'vec!\[([0-9,\s]*)\]', m.group(1)):
         vals.append([int(x) for x in vm.group(1).replace("\n", " ").split(",") if x.strip()])
-    return vals, r["out"]
+    return vals
 
 
 def run_property(prop, tier, decoders=None, jobs=None):
@@ -312,7 +321,9 @@ def run_property(prop, tier, decoders=None, jobs=None):
                 if not ok:
                     results[h.full] = {"status": "undecided", "detail": "scratch crate does not compile under kani: " + log[-600:], "solver_s": 0, "out": log, "failed_checks": [], "stubs": []}
                     continue
-                futs[ex.submit(run_one, sc, h)] = h
+                # harnesses with a replay decoder print their counterexample (if any) in the same run
+                pb = ["-Z", "concrete-playback", "--concrete-playback=print"] if (h.replay and decoders and h.replay in decoders) else []
+                futs[ex.submit(run_one, sc, h, pb)] = h
             for f in concurrent.futures.as_completed(futs):
                 results[futs[f].full] = f.result()
         for h in hs:
@@ -331,7 +342,7 @@ def run_property(prop, tier, decoders=None, jobs=None):
             if status == FAILED:
                 outs[oid] = r["out"]
                 if h.replay and decoders and h.replay in decoders and not ob.finding:
-                    vals, pout = concrete_values(sc, h)
+                    vals = playback_values(r["out_full"])
                     if vals is not None:
                         try:
                             ob.replay = decoders[h.replay](vals)
